@@ -13,9 +13,26 @@
 (* override (route.addTarget), RoundTrip(i, d): a request through           *)
 (* transport i to an upstream that sends its response header after d.       *)
 (*                                                                         *)
-(* SelfAssign names the deviation of the pinned tree (SetConfig assigns its *)
-(* parameter to itself, the package configuration never changes); the       *)
-(* required design has it FALSE.                                            *)
+(* "The configured limits are the ones used" has two halves: every built   *)
+(* transport carries the five configured values, AND NO OTHER LIMIT is      *)
+(* introduced that would defeat them (a cap on idle connections over all    *)
+(* hosts defeats "idle connections per host"; a cap on connections per host *)
+(* makes requests queue inside the transport, a wait bounded by neither the *)
+(* dial nor the response-header timeout; disabled keep-alives defeat the    *)
+(* idle options).  A transport is therefore specified by its observable     *)
+(* limits: Outcome, Concurrent, NewConnsAfterBursts.                        *)
+(*                                                                         *)
+(* The second machine (Main...) is the start-up order of main(): the        *)
+(* configuration is set, the FIRST routing table is built (per-route        *)
+(* transports), the servers are started (default and skip-verify            *)
+(* transports).                                                             *)
+(*                                                                         *)
+(* Named deviations (the required design has none of them):                 *)
+(*   SelfAssign      SetConfig assigns its parameter to itself (pinned tree) *)
+(*   ExtraLimit      "maxidletotal" | "maxconns": NewTransport also sets    *)
+(*                   MaxIdleConns / MaxConnsPerHost from proxy.maxconn      *)
+(*   LateSetConfig   main() sets the configuration only after the first     *)
+(*                   table was built                                        *)
 (***************************************************************************)
 EXTENDS Integers, Sequences, FiniteSets
 
@@ -23,32 +40,38 @@ CONSTANTS
     Configs,        \* records [name, dial, rht, ka, idle, maxidle]; durations in ms, all positive
     DelayClasses,   \* {"zero", "below", "above"}: upstream delay relative to the response-header timeout
     MaxOps,
-    SelfAssign
+    SelfAssign, ExtraLimit, LateSetConfig
 
 Kinds == {"default", "insecure", "hostoverride"}
 Zero == [name |-> "zero", dial |-> 0, rht |-> 0, ka |-> 0, idle |-> 0, maxidle |-> 0]   \* Go zero values: unlimited
+
+NoExtra == [maxidletotal |-> 0, maxconns |-> 0]     \* 0 = no such limit (Go's zero Transport)
+ExtraOf(c) == CASE ExtraLimit = "maxidletotal" -> [NoExtra EXCEPT !.maxidletotal = c.maxidle]
+                [] ExtraLimit = "maxconns" -> [NoExtra EXCEPT !.maxconns = c.maxidle]
+                [] OTHER -> NoExtra
 
 VARIABLES
     cfg,            \* transport.cfg
     configured,     \* ghost: what the operator configured last (Zero: nothing yet)
     built,          \* transports: <<[kind, vals, want]>>, want = ghost: the configuration in force when it was built
-    hist            \* ghost: the operations so far
-vars == <<cfg, configured, built, hist>>
+    hist,           \* ghost: the operations so far
+    mpc             \* main(): "start" | "configured" | "tabled" | "serving1" | "serving" (second machine, below)
+vars == <<cfg, configured, built, hist, mpc>>
 
-Init == cfg = Zero /\ configured = Zero /\ built = <<>> /\ hist = <<>>
+Init == cfg = Zero /\ configured = Zero /\ built = <<>> /\ hist = <<>> /\ mpc = "start"
 
 SetConfig(c) ==
     /\ Len(hist) < MaxOps
     /\ cfg' = IF SelfAssign THEN cfg ELSE c
     /\ configured' = c
     /\ hist' = Append(hist, [op |-> "set", kind |-> "", c |-> c])
-    /\ UNCHANGED built
+    /\ UNCHANGED <<built, mpc>>
 
 Build(kind) ==
     /\ Len(hist) < MaxOps
-    /\ built' = Append(built, [kind |-> kind, vals |-> cfg, want |-> configured])
+    /\ built' = Append(built, [kind |-> kind, vals |-> cfg, want |-> configured, extra |-> ExtraOf(cfg)])
     /\ hist' = Append(hist, [op |-> "new", kind |-> kind, c |-> configured])
-    /\ UNCHANGED <<cfg, configured>>
+    /\ UNCHANGED <<cfg, configured, mpc>>
 NewTransport(kind) == kind \in {"default", "insecure"} /\ Build(kind)
 AddTargetTransport == Build("hostoverride")
 
@@ -59,6 +82,26 @@ DelayOf(class, T) == CASE class = "zero" -> 0 [] class = "below" -> T \div 10 []
 Outcome(vals, d) ==
     IF vals.rht > 0 /\ d > vals.rht THEN [status |-> 504, within |-> vals.rht]
     ELSE [status |-> 200, within |-> d]
+
+\* k requests at once through one transport to one upstream that answers after d: request i
+\* (1..k) is answered like a single one -- unless connections per host are capped, then it
+\* waits for (i-1) \div cap earlier rounds to time out first.
+Concurrent(vals, extra, k, d) ==
+    [i \in 1..k |->
+        LET o == Outcome(vals, d)
+            rounds == IF extra.maxconns > 0 THEN (i - 1) \div extra.maxconns ELSE 0 IN
+        [status |-> o.status, within |-> o.within * (rounds + 1)]]
+
+\* Bursts of n concurrent requests to upstream A, then to upstream B, then to A again through
+\* one transport (idle timeout not elapsed): how many NEW connections does the second A burst
+\* open?  Per host min(n, maxidle) connections stay idle (maxidle = 0: Go keeps 2); a cap on
+\* the total evicts the oldest (A's) first when B's become idle.
+Min(a, b) == IF a < b THEN a ELSE b
+Max2(a, b) == IF a > b THEN a ELSE b
+NewConnsAfterBursts(vals, extra, n) ==
+    LET perhost == Min(n, IF vals.maxidle > 0 THEN vals.maxidle ELSE 2)
+        keptA == IF extra.maxidletotal > 0 THEN Min(perhost, Max2(0, extra.maxidletotal - perhost)) ELSE perhost
+    IN n - keptA
 
 Next == \/ \E c \in Configs : SetConfig(c)
         \/ \E k \in {"default", "insecure"} : NewTransport(k)
@@ -85,4 +128,46 @@ LimitsEnforced ==
             LET T == built[n].want.rht
                 o == Outcome(built[n].vals, DelayOf(cl, T)) IN
             IF cl = "above" THEN o.status = 504 /\ o.within <= T ELSE o.status = 200
+
+\* ... no other limit is introduced
+NoOtherLimit == \A n \in DOMAIN built : built[n].extra = NoExtra
+\* ... so k concurrent requests to a hanging upstream are ALL cut off within the timeout
+Burst(m) == {1, m, m + 1, 10 * m}
+ConcurrencyBounded ==
+    \A n \in DOMAIN built : built[n].want # Zero =>
+        LET T == built[n].want.rht IN
+        \A k \in Burst(built[n].want.maxidle) :
+            LET r == Concurrent(built[n].vals, built[n].extra, k, DelayOf("above", T)) IN
+            \A i \in 1..k : r[i].status = 504 /\ r[i].within <= T
+\* ... and the idle connections to one upstream survive traffic to another one
+IdlePerHostKept ==
+    \A n \in DOMAIN built : built[n].want # Zero =>
+        \A b \in 1..built[n].want.maxidle : NewConnsAfterBursts(built[n].vals, built[n].extra, b) = 0
+
+-----------------------------------------------------------------------------
+(* main(): start-up order.  The operator's configuration exists from the start; the        *)
+(* transports of the first routing table and of the servers must carry it.                  *)
+CONSTANT Operator       \* the configuration the operator wrote
+mvars == vars
+MainInit == cfg = Zero /\ configured = Operator /\ built = <<>> /\ hist = <<>> /\ mpc = "start"
+MBuild(kind) == /\ built' = Append(built, [kind |-> kind, vals |-> cfg, want |-> configured, extra |-> ExtraOf(cfg)])
+                /\ hist' = Append(hist, [op |-> "new", kind |-> kind, c |-> configured])
+                /\ UNCHANGED <<cfg, configured>>
+MSetConfig == /\ mpc = (IF LateSetConfig THEN "tabled" ELSE "start")
+              /\ cfg' = IF SelfAssign THEN cfg ELSE Operator
+              /\ hist' = Append(hist, [op |-> "set", kind |-> "", c |-> Operator])
+              /\ mpc' = (IF LateSetConfig THEN "late-configured" ELSE "configured")
+              /\ UNCHANGED <<configured, built>>
+\* the first routing table: one target with a host override
+FirstTable == /\ mpc = (IF LateSetConfig THEN "start" ELSE "configured")
+              /\ MBuild("hostoverride") /\ mpc' = "tabled"
+\* startServers -> newHTTPProxy: the default transport (the skip-verify one follows in StartServers2)
+StartServers == /\ mpc = (IF LateSetConfig THEN "late-configured" ELSE "tabled")
+                /\ MBuild("default") /\ mpc' = "serving1"
+StartServers2 == /\ mpc = "serving1" /\ MBuild("insecure") /\ mpc' = "serving"
+MainNext == MSetConfig \/ FirstTable \/ StartServers \/ StartServers2
+MainSpec == MainInit /\ [][MainNext]_mvars
+\* every transport main() ever builds carries the operator's configuration
+MainCarries == \A n \in DOMAIN built : built[n].vals = Operator
+MainServes == mpc = "serving" => Len(built) = 3
 =============================================================================
